@@ -83,6 +83,11 @@ type Footer struct {
 
 	incarNum uint64 // Ephemeral; to detect fast collection recreations.
 
+	// Ephemeral; the ref-count a persisted, top-level footer holds on
+	// its file, so that the file can be found (and stays open) even
+	// when the footer has no persisted segments at all.
+	fref *FileRef
+
 	ChildFooters map[string]*Footer // Persisted; Child collections by name.
 }
 
@@ -293,10 +298,10 @@ func (s *Store) startOrReuseFile() (fref *FileRef, file File, err error) {
 		s.footer.segmentLocs()
 		defer s.footer.DecRef()
 
-		// The segments might all belong to child collections.
-		mref := s.footer.mmapRefAny()
-		if mref != nil {
-			fref := mref.fref
+		// Not through the segments: they might all belong to child
+		// collections, or there might be none at all.
+		fref := s.footer.fileRef()
+		if fref != nil {
 			file := fref.AddRef()
 
 			return fref, file, nil
